@@ -339,7 +339,7 @@ func (e *engine) ensurePager(ns *nodeState) {
 	}
 	ns.conn = ns.cn.Connect(e.name, 301)
 	ns.pager = sim.NewPager(ns.conn, e.cfg.Layout, e.cfg.Pager)
-	im, err := sim.DiskImage(ns.cn.DBDir(e.name), e.cfg.Layout.PageSize)
+	im, err := sim.StableDiskImage(ns.cn.DBDir(e.name), e.cfg.Layout.PageSize)
 	if err == nil && im.N > 0 {
 		model, _ := e.cfg.Layout.ModelOf(im)
 		ns.pager.Ref = model
@@ -634,7 +634,7 @@ func (e *engine) settle() {
 		e.eval(4)
 		ns.mu.Lock()
 		dir := ns.cn.DBDir(e.name)
-		im, err := sim.DiskImage(dir, e.cfg.Layout.PageSize)
+		im, err := sim.StableDiskImage(dir, e.cfg.Layout.PageSize)
 		if err != nil {
 			core.Infra("disk image: %v", err)
 		}
@@ -713,7 +713,7 @@ func (e *engine) afterRestart(want ltx.Pos, ref any) {
 			e.fail("C06", "C06.ends-identical-to-primary", "position-after-restart/"+name, map[string]any{"got": got, "want": want.String()})
 			continue
 		}
-		im, _ := sim.DiskImage(ns.cn.DBDir(e.name), e.cfg.Layout.PageSize)
+		im, _ := sim.StableDiskImage(ns.cn.DBDir(e.name), e.cfg.Layout.PageSize)
 		if ref != nil {
 			if ok, why := im.Equal(ref.(sim.Image), e.cfg.Layout.LockPgno()); !ok {
 				e.fail("C06", "C06.ends-identical-to-primary", "image-after-restart/"+name, map[string]any{"why": why})
